@@ -376,7 +376,20 @@ fn last_line(s: &str) -> String {
 fn check_tape(tape: &[u8], gates: &Gates, stats: &mut Stats, counting: bool, max_len: usize) -> Result<(), Failure> {
     let mut t = Tape::new(tape);
     let s = gen_script(&mut t, gates, max_len);
+    // one server in eight is started with verbosity flags: the log goes to a file, the protocol
+    // stream must stay clean
+    let verbosity: Vec<String> = match crate::tape::fnv(tape) % 16 {
+        0 => vec!["-v".into()],
+        1 => vec!["-vvvv".into()],
+        _ => vec![],
+    };
+    let verbose = !verbosity.is_empty();
+    let old = crate::drive::set_global_options(verbosity);
     let run = lsp_run(&s.messages);
+    crate::drive::set_global_options(old);
+    if counting && verbose {
+        stats.class("server.started-with-verbosity-flags");
+    }
     if counting {
         let has_req = s.requests.len() > 2;
         let unusual = s.kinds.iter().any(|k| *k != "didChange.1" && !k.starts_with("init."));
